@@ -21,7 +21,13 @@ def main():
         import traceback
         traceback.print_exc()
         return 2
-    return core.main(pid, mod.run, sys.argv[2:])
+    def run(ctx):
+        mod.run(ctx)
+        if not ctx.quick:
+            # thorough tier: the specification mutants that belong to this property must be killed
+            from checks import negctl
+            negctl.run_for(ctx, pid)
+    return core.main(pid, run, sys.argv[2:])
 
 
 if __name__ == '__main__':
